@@ -8,6 +8,8 @@ import GraphiqModel.Proofs.Commuting
 import Mathlib.Analysis.Matrix.Order
 import Mathlib.Analysis.SpecialFunctions.ContinuousFunctionalCalculus.Rpow.Basic
 import Mathlib.Analysis.Complex.Order
+import Mathlib.Analysis.Matrix.HermitianFunctionalCalculus
+import Mathlib.LinearAlgebra.Matrix.Charpoly.Basic
 namespace Graphiq
 namespace C17B
 open Matrix
@@ -256,6 +258,47 @@ theorem uhlmann_nonneg (ρ σ : Matrix ι ι ℂ) : 0 ≤ uhlmann ρ σ := by
   unfold uhlmann
   have h := (Matrix.nonneg_iff_posSemidef.mp (CFC.sqrt_nonneg (CFC.sqrt ρ * σ * CFC.sqrt ρ))).trace_nonneg
   exact pow_nonneg h 2
+
+
+/-! ### symmetry -/
+
+
+/-- the trace of the positive square root is the sum of the square roots of the eigenvalues -/
+theorem trace_sqrt_eq_sum {A : Matrix ι ι ℂ} (hA : A.PosSemidef) :
+    Matrix.trace (CFC.sqrt A) = ∑ i, ((Real.sqrt (hA.1.eigenvalues i) : ℝ) : ℂ) := by
+  rw [CFC.sqrt_eq_cfc, cfc_nnreal_eq_real _ A, hA.1.cfc_eq]
+  simp only [IsHermitian.cfc, Unitary.conjStarAlgAut_apply]
+  rw [Matrix.trace_mul_comm, ← Matrix.mul_assoc]
+  simp [Matrix.trace_diagonal]
+  apply Finset.sum_congr rfl
+  intro i _
+  rw [max_eq_left (hA.eigenvalues_nonneg i)]
+
+
+/-- **the Uhlmann fidelity is symmetric** (any dimension): `(tr √(√ρ σ √ρ))² = (tr √(√σ ρ √σ))²` — the two matrices are
+    `(AB)(AB)†` and `(AB)†(AB)` for `A = √ρ`, `B = √σ`, which have the same characteristic polynomial -/
+theorem uhlmann_symm (ρ σ : Matrix ι ι ℂ) (hρ : ρ.PosSemidef) (hσ : σ.PosSemidef) : uhlmann ρ σ = uhlmann σ ρ := by
+  have hρ0 : (0 : Matrix ι ι ℂ) ≤ ρ := Matrix.nonneg_iff_posSemidef.mpr hρ
+  have hσ0 : (0 : Matrix ι ι ℂ) ≤ σ := Matrix.nonneg_iff_posSemidef.mpr hσ
+  have hAH : (CFC.sqrt ρ)ᴴ = CFC.sqrt ρ := (Matrix.nonneg_iff_posSemidef.mp (CFC.sqrt_nonneg ρ)).1
+  have hBH : (CFC.sqrt σ)ᴴ = CFC.sqrt σ := (Matrix.nonneg_iff_posSemidef.mp (CFC.sqrt_nonneg σ)).1
+  have hAA := CFC.sqrt_mul_sqrt_self ρ hρ0
+  have hBB := CFC.sqrt_mul_sqrt_self σ hσ0
+  have e1 : CFC.sqrt ρ * σ * CFC.sqrt ρ = (CFC.sqrt ρ * CFC.sqrt σ) * (CFC.sqrt ρ * CFC.sqrt σ)ᴴ := by
+    rw [Matrix.conjTranspose_mul, hAH, hBH]
+    nth_rewrite 1 [← hBB]
+    simp only [Matrix.mul_assoc]
+  have e2 : CFC.sqrt σ * ρ * CFC.sqrt σ = (CFC.sqrt ρ * CFC.sqrt σ)ᴴ * (CFC.sqrt ρ * CFC.sqrt σ) := by
+    rw [Matrix.conjTranspose_mul, hAH, hBH]
+    nth_rewrite 1 [← hAA]
+    simp only [Matrix.mul_assoc]
+  have p1 : (CFC.sqrt ρ * σ * CFC.sqrt ρ).PosSemidef := by rw [e1]; exact posSemidef_self_mul_conjTranspose _
+  have p2 : (CFC.sqrt σ * ρ * CFC.sqrt σ).PosSemidef := by rw [e2]; exact posSemidef_conjTranspose_mul_self _
+  have hchar : (CFC.sqrt ρ * σ * CFC.sqrt ρ).charpoly = (CFC.sqrt σ * ρ * CFC.sqrt σ).charpoly := by
+    rw [e1, e2]; exact Matrix.charpoly_mul_comm _ _
+  have heig : p1.1.eigenvalues = p2.1.eigenvalues := (Matrix.IsHermitian.eigenvalues_eq_eigenvalues_iff p1.1 p2.1).2 hchar
+  unfold uhlmann
+  rw [trace_sqrt_eq_sum p1, trace_sqrt_eq_sum p2, heig]
 
 
 end C17B
